@@ -325,7 +325,9 @@ Dec(ty, b, p, F) ==
       [] ty.t = "strTrunc" ->
             (IF p > Len(b) THEN DEof
              ELSE IF b[p] = 246 THEN DOk(<< >>, p + 1)
-             ELSE LET r == DecStr(b, p) IN IF ~r.ok THEN r ELSE DOk(<<TruncateTo(r.v, ty.L)>>, r.p))
+             \* operationally: scan the four bytes ending at the cut for a character boundary
+             ELSE LET r == DecStr(b, p) IN
+                  IF ~r.ok THEN r ELSE DOk(<<SubSeq(r.v, 1, FloorBoundaryWindow(r.v, ty.L))>>, r.p))
       [] ty.t = "strSkip" ->
             (LET r == DecStr(b, p) IN
              IF ~r.ok THEN r ELSE DOk(IF Len(r.v) <= ty.L THEN <<r.v>> ELSE << >>, r.p))
